@@ -113,7 +113,7 @@ def check(run: Run) -> None:
     eff = Effects(model)
     run.rule("C05.R1", "converter coverage: every field of the domain Note is written to the SQL model and restored from the same column; section/block converters map every child collection both ways")
     run.rule("C05.R2", "every indexed note has a ZID: _add_zids dominates the conversion, gives every ZID-less note a fresh one and queues the write-back; index-side and file-side drop the same leading word")
-    run.rule("C05.R3", "write-back conservation: lines[:s] + X + lines[e:], s = line_no-1, e-s = body line count, only X[0] changes, split/joined on '\\n'")
+    run.rule("C05.R3", "write-back conservation, by abstract runs of _update_zo_file over virtual pages (adjacent multi-line notes; U+2028 / form feed / CR above the notes; first and last line): the text written is the page text with only the first line of each listed note replaced")
     run.rule("C05.R4", "wiring: every constructed message class has a registered handler; NewZorgNotesEvent reaches the page write, which is followed by the hash refresh")
     converter_coverage(run, model)
     zids_before_index(run, model, "C05.R2")
